@@ -361,7 +361,10 @@ func (s *Solver) primary(goal *Term) (CheckResult, string) {
 // fallbacks runs the other solvers on the stand-alone script; the last one is
 // the first solver again with three times the time limit, so that a machine
 // under load does not turn a slow proof into an alarm.
-func (s *Solver) fallbacks(script string, cr CheckResult) CheckResult {
+func (s *Solver) fallbacks(script string, cr CheckResult) CheckResult { return s.fallbacksN(script, cr, 2) }
+
+// fallbacksN: the first n rounds only (round 1: normal limits, round 2: four times the limit)
+func (s *Solver) fallbacksN(script string, cr CheckResult, n int) CheckResult {
 	type alt struct {
 		name, bin string
 		args      []string
@@ -379,7 +382,7 @@ func (s *Solver) fallbacks(script string, cr CheckResult) CheckResult {
 			{"z3-4.8.12/4x", "/usr/bin/z3", []string{"-smt2", "-in", fmt.Sprintf("-T:%d", 4*sec)}},
 		},
 	}
-	if os.Getenv("GOVC_NO_LASTRESORT") != "" {
+	if os.Getenv("GOVC_NO_LASTRESORT") != "" || n < 2 {
 		rounds = rounds[:1]
 	}
 	for _, round := range rounds {
